@@ -2,28 +2,27 @@ import Driver.Proto
 import Driver.OpsSpec
 open Driver
 
-/-- dispatch one line: returns `<model> ## <verdict>` -/
+/-- stateless op families: each returns `none` for ops it does not know -/
+def families : List (String → List String → List String → Option (Except String (String × String))) :=
+  [ OpsSpec.handle ]
+
+/-- dispatch one line `op args… => impl observation…`: returns `<model> ## <verdict>` -/
 def handleLine (line : String) : String :=
   let (op, impl) := splitLine line
   match op with
   | [] => "- ## skip"
   | name :: args =>
-    let prop : Except String String :=
-      match name with
-      | "htr" => OpsSpec.propHtr args impl
-      | "ser" => OpsSpec.propSer args impl
-      | "rt" => OpsSpec.propRt args impl
-      | "dec" => OpsSpec.propDec args impl
-      | "sizes" => OpsSpec.propSizes args impl
-      | _ => .error s!"unknown-op {name}"
-    match prop with
-    | .ok v => s!"- ## {v}"
-    | .error e => s!"- ## ERROR:{e}"
+    if name.startsWith "#" then "- ## skip" else
+    let r : Option (Except String (String × String)) := families.findSome? (fun f => f name args impl)
+    match r with
+    | some (Except.ok (m, v)) => s!"{m} ## {v}"
+    | some (Except.error e) => s!"- ## ERROR:{e}"
+    | none => s!"- ## ERROR:unknown-op {name}"
 
 partial def loop (h : IO.FS.Stream) (out : IO.FS.Stream) : IO Unit := do
   let line ← h.getLine
   if line.isEmpty then return ()
-  out.putStrLn (handleLine (line.dropRightWhile (· == '\n')))
+  out.putStrLn (handleLine (line.trimAsciiEnd.toString))
   loop h out
 
 def main : IO Unit := do
